@@ -298,10 +298,16 @@ class WorkerPool:
             # we just wait a bit and try again.
             for worker_id in range(len(self._workers)):
                 try:
-                    worker_died = (
-                        self._worker_comms.is_worker_alive(worker_id) and not self._workers[worker_id].is_alive()
-                    )
-                except ValueError:
+                    worker = self._workers[worker_id]
+                    worker_died = self._worker_comms.is_worker_alive(worker_id) and not worker.is_alive()
+
+                    # A worker that stops normally marks itself as dead right before it exits, and a worker that is
+                    # restarted is replaced by a new worker object which marks itself alive again. Both can happen in
+                    # between the two checks above, so verify that this worker is still supposed to be alive
+                    if worker_died:
+                        worker_died = (self._worker_comms.is_worker_alive(worker_id) and
+                                       self._workers[worker_id] is worker)
+                except (ValueError, IndexError):
                     worker_died = False
 
                 if worker_died:
